@@ -201,7 +201,27 @@ class Constant(Expression):
 
     def __init__(self, value: float | int | ArrayLike) -> None:
         self._hash = None
-        self.value = np.asarray(value) if not isinstance(value, (int, float)) else value
+        if isinstance(value, (int, float)):
+            self.value = value
+            return
+        arr = np.asarray(value)
+        if arr.dtype == object:
+            # a vector / matrix of variables or expressions, a Parameter container, ...
+            from optyx.core.errors import InvalidOperationError
+
+            raise InvalidOperationError(
+                operation="constant",
+                operand_types=(type(value).__name__,),
+                reason="A constant must be numeric.",
+                suggestion="A scalar expression cannot be combined with a vector or "
+                "matrix of variables (or a list of expressions) by this operator; "
+                "combine them element by element.",
+            )
+        if arr.dtype.kind in "biu" or (arr.dtype.kind == "f" and arr.dtype != np.float64):
+            # bool / fixed-width integer / float32 data: arithmetic in those types
+            # wraps around or loses the other operand (NumPy promotion rules)
+            arr = arr.astype(np.float64)
+        self.value = arr
 
     def evaluate(
         self, values: Mapping[str, ArrayLike | float]
